@@ -1,6 +1,6 @@
 #!/bin/bash
 # usage: confirm_twin.sh <PID> <t1|t2>   checks /tmp/wt/out6/<PID>/<t> (check.py exits 0 clean and refactored; neighbouring tests are the reviewer's) and stores it as seeded/twins/<PID>-<t>/
-pid=$1; t=$2; src=/tmp/wt/out6/$pid/$t; wt=/tmp/twincheck_$pid$t
+pid=$1; t=$2; src=${TWIN_OUT:-/tmp/wt/out6}/$pid/$t; wt=/tmp/twincheck_$pid$t
 [ -f $src/patch.diff ] || { echo "no patch"; exit 2; }
 git -C /repo worktree add --detach $wt HEAD >/dev/null 2>&1 || { echo "worktree failed"; exit 2; }
 PP=$wt/cirq-core:$wt/cirq-google:$wt/cirq-ionq:$wt/cirq-aqt:$wt/cirq-pasqal
